@@ -264,7 +264,13 @@ func (s *Stmt) SQL() string {
 		if s.All {
 			kw = " UNION ALL "
 		}
-		out := s.L.SQL() + kw + s.R.SQL()
+		branch := func(b *Stmt) string {
+			if !b.Union && len(b.With) > 0 {
+				return "(" + b.SQL() + ")" // a branch with its own WITH clause must be parenthesised
+			}
+			return b.SQL()
+		}
+		out := branch(s.L) + kw + branch(s.R)
 		if len(s.With) > 0 {
 			w := make([]string, len(s.With))
 			for i, c := range s.With {
